@@ -1,6 +1,6 @@
 //verif:pkg .
 //verif:use servers_mcp
-//verif:bound framing: one message of 1..5 (thorough: 1..9) symbolic bytes (every byte >= 0x20, or LF) through sseutil.Writer.WriteEvent, formatSSEEvent and the stdio line writer, read back by a reference reader; interleaving: two writers on one stream whose Write is adversarial (the first Write of one message blocks until another Write happened or 100 ms passed - every choice of the blocking Write): two stdio responses, two notifications on one GET stream, a response and a notification on one legacy SSE session
+//verif:bound framing: one message of 1..5 (thorough: 1..9) symbolic bytes (every byte >= 0x20, or LF) through sseutil.Writer.WriteEvent, formatSSEEvent and the stdio line writer, read back by a reference reader; interleaving: two writers on one stream whose Write is adversarial (one Write - every choice of which - blocks after its bytes were recorded until another writer has written and gone quiet, or 100 ms passed): two stdio responses, two notifications on one GET stream, a server-issued request and a notification on one GET stream, a response and a notification on one legacy SSE session
 //verif:assume JSON text contains no byte < 0x20 (json.Marshal escapes control characters, U+2028 and U+2029); pipe-buffer / bufio size boundaries and json.Encoder internals are outside the claim
 package mcp
 
@@ -115,8 +115,24 @@ func (g *c09Gate) Write(p []byte) (int, error) {
 	g.n++
 	g.data = append(g.data, p...)
 	if k == g.blockAt {
+		// forget the writes that happened before: wait for a Write issued from now on, then until the
+		// other writer has been quiet for 20 ms (or give up after 100 ms when nobody else writes)
+		for drained := false; !drained; {
+			select {
+			case <-g.other:
+			default:
+				drained = true
+			}
+		}
 		select {
 		case <-g.other:
+			for quiet := false; !quiet; {
+				select {
+				case <-g.other:
+				case <-time.After(20 * time.Millisecond):
+					quiet = true
+				}
+			}
 		case <-time.After(100 * time.Millisecond):
 		}
 	} else {
@@ -233,6 +249,46 @@ func H_C09_get_stream_two_notifications() {
 	a, b, all := c09Markers(evs)
 	vAssert("each-event-is-one-message", all)
 	vAssert("both-notifications-recovered", vAnd(a, b))
+	vReach("end")
+}
+
+// H_C09_get_stream_request_and_notification: a server-issued request and a notification to the same session.
+func H_C09_get_stream_request_and_notification() {
+	vRandConcrete(true)
+	srv := NewServer("srv", "1.0", WithPostSSEEnabled(false))
+	h := srv.httpHandler
+	g := c09GateHTTP{newC09Gate(vChoice("blockAt", 6))}
+	h.getSSEConnections["s"] = &getSSEConnection{writer: g, flusher: g, sseResponder: newSSEResponder()}
+	ctx, cancel := context.WithCancel(context.Background())
+	done := make(chan struct{}, 2)
+	first := vChoice("first", 2)
+	req := func() {
+		h.SendRequest(ctx, "s", &JSONRPCRequest{JSONRPC: "2.0", ID: "A", Request: Request{Method: "roots/list"}})
+		done <- struct{}{}
+	}
+	note := func() {
+		h.sendNotificationToGetSSE("s", NewJSONRPCNotificationFromMap("n/x", map[string]interface{}{"m": "B"}))
+		done <- struct{}{}
+	}
+	if first == 0 {
+		go req()
+		go note()
+	} else {
+		go note()
+		go req()
+	}
+	<-done
+	vQuiesce()
+	time.Sleep(150 * time.Millisecond)
+	vQuiesce()
+	cancel()
+	<-done
+	evs, ok := c09ReadSSE(string(g.data))
+	vAssert("stream-parses", ok)
+	vAssert("two-events", len(evs) == 2)
+	a, b, all := c09Markers(evs)
+	vAssert("each-event-is-one-message", all)
+	vAssert("both-frames-recovered", vAnd(a, b))
 	vReach("end")
 }
 
